@@ -23,6 +23,9 @@ CHECKS = {
  "C11": ("model_checking", "5 C11", G_TEXT + T_TEXT + "peek_n(n) at random points of random histories; token list, classification, target mode and purity (later calls) are checked.", NOTE, TECH),
  "C13": ("model_checking", "5 C13", "TLC enumerates all sequences of cached builds over a base configuration, its one-field neighbours (token type, order, lookahead, polarity, transition, mode name, spelling) and configurations that do not build; each sequence runs in a fresh process through build(), is scanned on all probe inputs and compared with Tokenizer's prescription for that configuration and with a build_uncached twin.", NOTE, "TLA+ spec (Gen_Cache over ScannerApi!Build) + TLC-generated build sequences replayed in fresh processes"),
  "C15": ("model_checking", "5 C15", "TLC enumerates supported host regexes with one documented-unsupported construct planted at every node position (pattern or lookahead, first or second mode) and replays the builds; random strings over the regex meta-alphabet are built by the harness and TLC validates the verdict (Err iff syntax error or unsupported construct) - a panic is never a behaviour.", NOTE + "; the harness' translation of the regex-syntax AST marks unsupported nodes", TECH),
+ "C08": ("exploration", "5 C08", "TLC enumerates class-expression shapes (union, &&, --, ~~, negation and redundant nesting at any level over 5 base symbols) and defines Member(expr, atom); the harness instantiates the symbols from a table of 51 concrete items, measures every base item alone and every whole expression over ALL 1,112,064 scalars through the public API, and TLC compares the measured membership with Member on every realised atom; the base facts (literal, dot, ASCII parts of \\d \\s \\w, complements, inclusive range bounds) are checked by TLC on the measured tables. Exhaustive in the character domain, bounded/sampled in expression depth.", "items used alone are measured through the public API; TLC; regex-syntax", "TLA+ spec (CharClass!Member) evaluated by TLC on atoms measured over all scalars"),
+ "C16": ("model_checking", "5 C16", "TLC enumerates abstract mode lists and Match/MatchExt/Span/Position values in the README layout and writes them with its own JSON serialiser; the harness deserialises them into the Rust types, compares with API-built values, re-serialises with serde_json, builds and scans both; TLC reads serde's text back and compares it with the abstract value; the README's JSON block is read verbatim.", "TLC's Json module as layout oracle; serde_json; numbers up to 2^31-1", "TLA+ spec (SerdeLayout) + TLC both ways through its own JSON serialiser"),
+ "C18": ("translation_validation", "5 C18", "For generated, random, corpus and specially named configurations generate_compiled_automata_as_dot is called, every file is parsed with a strict DOT parser and TLC decides per file whether the parsed graph equals DotPicture!Picture(dump) (nodes, accepting labels, edges with class ids, one cluster per lookahead with polarity); directory listing (one file per mode, prefix_name.dot) and three unwritable-folder cases (must return Err).", "the harness' DOT parser for the dot-writer subset; verif_dump hook; TLC", "TLA+ spec (DotPicture) relating the automaton dump to the parsed DOT file, decided by TLC"),
  "C12": ("model_checking", "5 C12", G_TEXT + T_TEXT + "up to five interleaved iterators over one scanner, scanner-level set_mode, cached and uncached builds.", NOTE, TECH),
 }
 NOT_YET = {
